@@ -403,6 +403,27 @@ def lemma_chain_mixed(i: int, j: int, n: int) -> bool:
     return real_parse(toks) == ref_parse(toks)
 
 
+def lemma_unary_stack(u1: int, u2: int, u3: int, jr: int) -> bool:
+    """
+    pre: 1 <= u1 <= 3 and 1 <= u2 <= 3 and 0 <= u3 <= 3 and 0 <= jr < 3
+    post: __return__
+    """
+    # stacked prefix operators nest right to left: the first one written is the outermost
+    pre = [UNOPS[u1], UNOPS[u2]] + ([UNOPS[u3]] if UNOPS[u3] is not None else [])
+    j = [0, 7, 13][jr]
+    toks = pre + [T.Ident('a'), BINOPS[j]] + list(reversed(pre)) + [T.Ident('b'), O.IS, T.DataType.BYTE]
+    r = real_parse(toks)
+    if r is None or r != ref_parse(toks):
+        return False
+    # the left operand of the root is u1(u2(u3(a)))
+    n = r[1]
+    for u in pre:
+        if not (isinstance(n, tuple) and n[0] == 'u' and n[1] == u):
+            return False
+        n = n[2]
+    return n == 'a'
+
+
 def twin_pairs(i: int, j: int) -> bool:
     """
     pre: 0 <= i < NB and 0 <= j < NB
@@ -521,7 +542,7 @@ def twin_chain_left_split(lv: int, alt: int, ni: int) -> bool:
     return _chain_left(i, j if alt else i, CHAIN_NS[ni]) and ni != 1
 
 
-SPLITS = {'twin_chain_left_split': ('lv', 5), 'lemma_postfix_on_primaries': ('k', 14), 'lemma_postfix_on_primaries_full': ('k', 14), 'lemma_chain_left_full': ('i', 14), 'lemma_postfix_inside': ('k', 14), 'lemma_chain_left': ('lv', 5), 'lemma_chain_mixed': ('i', 14), 'lemma_unary_before_cast': ('u', 1, 4), 'lemma_pairs_unary': ('i', 14), 'lemma_round_trip_two': ('i', 14), 'lemma_pairs_postfix_cast': ('i', 14), 'lemma_triples_level_reps': ('i', 6), 'lemma_round_trip_level_reps': ('i', 6)}
+SPLITS = {'twin_chain_left_split': ('lv', 5), 'lemma_unary_stack': ('u1', 1, 4), 'lemma_postfix_on_primaries': ('k', 14), 'lemma_postfix_on_primaries_full': ('k', 14), 'lemma_chain_left_full': ('i', 14), 'lemma_postfix_inside': ('k', 14), 'lemma_chain_left': ('lv', 5), 'lemma_chain_mixed': ('i', 14), 'lemma_unary_before_cast': ('u', 1, 4), 'lemma_pairs_unary': ('i', 14), 'lemma_round_trip_two': ('i', 14), 'lemma_pairs_postfix_cast': ('i', 14), 'lemma_triples_level_reps': ('i', 6), 'lemma_round_trip_level_reps': ('i', 6)}
 
 # warm caches
 _ = CTX.flavors
